@@ -194,7 +194,11 @@ def run(replay=None):
                     if not all(close(a, b, 1e-3, 1e-5 * vscale) for a, b in zip(gi, capi)):
                         ck.violation("capi", "libfive_tree_eval_d differs from DerivArrayEvaluator::deriv at a smooth point",
                                      {"program": p.text(), "answer": hv})
-                if not all(close(a, b, 2e-2, 2e-3) for a, b in zip(gi, cd)):
+                # (absolute slack scales with the VALUE: rounding residue of an exactly cancelling derivative - atan2(u, u),
+                #  computed as ad*bv - bd*av with a fused multiply-add - is amplified by whatever multiplies it, here
+                #  exp(..)^2 ~ 6.6e4, into 5e-3)
+                atol = max(2e-3, 1e-5 * vscale)
+                if not all(close(a, b, 2e-2, atol) for a, b in zip(gi, cd)):
                     ck.violation("gradient", "gradient differs from the central difference of the reference denotation at a smooth point",
                                  {"program": p.text(), "point": pt, "vars": vv, "impl": hv, "model": mv})
                 ks = sorted(mvars, key=int)
@@ -205,7 +209,7 @@ def run(replay=None):
                 for j, k2 in enumerate(ks):
                     if k2 in hvars and j < len(vcd) and math.isfinite(vcd[j]) and abs(vcd[j]) < 1e4:
                         stats["var_partials"] += 1
-                        if not close(h2f(hvars[k2]), vcd[j], 2e-2, 2e-3):
+                        if not close(h2f(hvars[k2]), vcd[j], 2e-2, atol):
                             ck.violation("jacobian", "variable partial differs from the central difference at a smooth point",
                                          {"program": p.text(), "point": pt, "vars": vv, "var": k2, "impl": hv, "model": mv})
                 if any(abs(x) > 1e-6 for x in gi):
